@@ -424,3 +424,60 @@ def ob_values_over_bed(ctx, res):
         res.fail("valuesOverBed/range", fn, "each returned (clipped) value fills bases val.start..val.end")
         return
     res.ok(fn, "per region: array of end-start slots; each returned value fills slots [val.start-start, val.end-start)")
+
+
+def ob_avg_iterator(ctx, res):
+    """C17-S2: the library iterator (used by the Python binding) makes the same per-row calls as the tool and yields (name, stats) of the same row"""
+    M = "bigtools/src/utils/misc.rs"
+    fn = ctx.ast.fn(M, "bigwig_average_over_bed")
+    cl = [n for n in walk_no_nested_fn(fn.body) if n.k == "closure"]
+    ff = [c for c in walk_no_nested_fn(fn.body) if c.k == "call" and up(c["func"]).endswith("from_fn")]
+    if len(ff) != 1 or len(cl) < 1:
+        res.fail("avgIter/shape", fn, "expected a from_fn iterator")
+        return
+    body = strip(ff[0]["args"][0])
+    if body.k != "closure":
+        res.fail("avgIter/shape", fn, "from_fn must take the per-row closure")
+        return
+    b = body["body"]
+    reads = [c for c in walk_no_nested_fn(b) if c.k == "mcall" and c["method"] == "read" and origin(fn, c["recv"]) == "new(p0)"]
+    pb = [c for c in walk_no_nested_fn(b) if c.k == "call" and up(c["func"]) == "parse_bed"]
+    nf = [c for c in walk_no_nested_fn(b) if c.k == "call" and up(c["func"]) == "name_for_bed_item"]
+    sf = [c for c in walk_no_nested_fn(b) if c.k == "call" and up(c["func"]) == "stats_for_bed_item"]
+    if [len(x) for x in (reads, pb, nf, sf)] != [1, 1, 1, 1]:
+        res.fail("avgIter/calls", fn, "each call of the iterator must read one line, parse it, name it and compute its statistics exactly once; found read=%d parse_bed=%d name=%d stats=%d"
+                 % (len(reads), len(pb), len(nf), len(sf)))
+        return
+    loops = [n for n in walk_no_nested_fn(b) if n.k in ("loop", "while", "for")]
+    if loops:
+        res.fail("avgIter/loop", loops[0], "a loop inside the per-row step can skip or merge rows")
+        return
+    if "read" not in origin(fn, pb[0]["args"][0]):
+        res.fail("avgIter/line", pb[0], "parse_bed must be given the line just read")
+        return
+    na = [up(strip(x)) for x in nf[0]["args"]]
+    sa = [up(strip(x)) for x in sf[0]["args"]]
+    o_chrom_n, o_entry_n = origin(fn, nf[0]["args"][1]), origin(fn, nf[0]["args"][2])
+    o_chrom_s, o_entry_s = origin(fn, sf[0]["args"][0]), origin(fn, sf[0]["args"][1])
+    if "parse_bed" not in o_chrom_n or o_chrom_n != o_chrom_s or "parse_bed" not in o_entry_n or o_entry_n.lstrip("&") != o_entry_s.lstrip("&") or o_chrom_n == o_entry_n:
+        res.fail("avgIter/args", sf[0], "name and statistics must be computed from the (chrom, entry) of the same parsed line; name args %s, stats args %s" % (na, sa))
+        return
+    if na[0] != "name" or "bigwig" not in sa[2]:
+        res.fail("avgIter/args2", nf[0], "name mode and reader must be the function's own arguments")
+        return
+    # the successful item pairs the name with the statistics
+    oks = [c for c in walk_no_nested_fn(b) if c.k == "call" and up(c["func"]) == "Some" and up(strip(c["args"][0])).startswith("Ok(")]
+    good = 0
+    for c in oks:
+        inner = strip(strip(c["args"][0])["args"][0])
+        if inner.k == "tuple" and len(inner["elems"]) == 2:
+            o0, o1 = origin(fn, inner["elems"][0]), origin(fn, inner["elems"][1])
+            if "name_for_bed_item" in o0 and "stats_for_bed_item" in o1:
+                good += 1
+            else:
+                res.fail("avgIter/yield", c, "the row yielded must be (name_for_bed_item result, stats_for_bed_item result); got origins (%s, %s)" % (o0[:60], o1[:60]))
+                return
+    if good != 1:
+        res.fail("avgIter/yield", fn, "exactly one success exit yielding (name, stats) expected, found %d" % good)
+        return
+    res.ok(fn, "library iterator: one line read, parsed, named and measured per step, from the same (chrom, entry); yields (name, stats); no loop inside the step")
